@@ -61,6 +61,10 @@ def boolean_op(rep, F):
         fn = F.one(r"^%sBooleanOps::boolean_op$" % BO, crates=("geo",))
         ps = [p for p in opaque(F).run(fn) if p.kind == "ret"]
         okk = len(ps) == 1
+        if not okk:
+            short_cuts = [p for p in ps if not [c for c in calls_of(p) if c[1].endswith("::overlay")]]
+            rep.bad("R4.2", "boolean_op:paths", "boolean_op has %d result paths, %d of them return without handing the operands to the overlay engine (guard: %s): "
+                    "the result of such a path is not the engine's overlay of ALL rings of both operands" % (len(ps), len(short_cuts), show_pc(short_cuts[0].pc)[:200] if short_cuts else "-"), where=fn.loc())
         if okk:
             ov = [c for c in calls_of(ps[0]) if c[1].endswith("::overlay")]
             okk = len(ov) == 1
@@ -174,6 +178,7 @@ def unary(rep, F):
         for p in ps:
             ov = [c for c in calls_of(p) if c[1].endswith("::overlay")]
             if not ov:
+                rep.bad("R4.5", "unary_union:paths", "a result path of unary_union returns without calling the overlay engine (guard: %s)" % show_pc(p.pc)[:200], where=fn.loc())
                 continue
             rule, fill = bare(ov[0][2][1]), bare(ov[0][2][2])
             atoms = [(bare(t), v) for t, v in p.pc if "Clockwise" in bare(t)]
@@ -195,7 +200,10 @@ def clip(rep, F):
         fn = F.one(r"^%sBooleanOps::clip$" % BO, crates=("geo",))
         ex = opaque(F)
         ps = [p for p in ex.run(fn) if p.kind == "ret"]
-        okk = len(ps) == 1
+        noclip = [p for p in ps if not [c for c in calls_of(p) if c[1].endswith("::clip_by")]]
+        if ps and noclip:
+            rep.bad("R4.6", "clip:paths", "%d of %d result paths of clip return without calling the engine's clip_by (guard: %s)" % (len(noclip), len(ps), show_pc(noclip[0].pc)[:200]), where=fn.loc())
+            return
         cb = [c for c in calls_of(ps[0]) if c[1].endswith("::clip_by")] if ps else []
         if not cb:
             rep.bad("R4.6", "clip_by", "clip_by not called", where=fn.loc())
